@@ -4,6 +4,8 @@ item names) are computed here with plain string operations - they are inputs of 
 
 from __future__ import annotations
 
+import hashlib
+import json
 import re
 from typing import Any
 
@@ -24,15 +26,17 @@ def san_class(s: str) -> str:
 
 
 def _blank() -> dict[str, Any]:
-    return {"k": "schema", "to": "", "type": "none", "hasProps": False, "hasDesc": False, "isEnum": False, "props": [], "allOf": [], "oneOf": [], "anyOf": [], "items": [], "addl": [], "iname": NONE}
+    return {"k": "schema", "to": "", "type": "none", "hasProps": False, "hasDesc": False, "isEnum": False, "props": [], "allOf": [], "oneOf": [], "anyOf": [], "items": [], "addl": [], "iname": NONE, "nid": NONE, "ch": NONE}
 
 
 class Builder:
     def __init__(self) -> None:
         self.names: set[str] = set()
 
-    def node(self, j: Any, name: str | None) -> dict[str, Any]:
+    def node(self, j: Any, name: str | None, nid: str = NONE) -> dict[str, Any]:
         n = _blank()
+        n["nid"] = nid  # identity of the raw node (its path in the document): SchemaParse records which node an entry was built from
+        n["ch"] = hashlib.sha1(json.dumps(j, sort_keys=True, default=str).encode()).hexdigest()[:12]  # content: two equal nodes mean the same
         if name:
             self.names.add(name)
         if not isinstance(j, dict):
@@ -79,10 +83,10 @@ class Builder:
             self.names.add(dname)
             if pname != NONE:
                 self.names.add(pname)
-            n["props"].append({"key": key, "pname": pname, "dname": dname, "node": self.node(pj, ctx)})
+            n["props"].append({"key": key, "pname": pname, "dname": dname, "node": self.node(pj, ctx, f"{nid}/p:{key}")})
         for kw in ("allOf", "oneOf", "anyOf"):
             for m in j.get(kw) or []:
-                n[kw].append(self.node(m, None))
+                n[kw].append(self.node(m, None, f"{nid}/{kw}{len(n[kw])}"))
         it = j.get("items")
         if n["type"] == "array" and isinstance(it, dict) and it:
             comp = any(k in it for k in ("allOf", "anyOf", "oneOf"))
@@ -94,14 +98,14 @@ class Builder:
                 iname = san_class(f"{name or 'AnonymousArray'}Item")
                 self.names.add(iname)
             n["iname"] = iname
-            n["items"] = [self.node(it, None if iname == NONE else iname)]
+            n["items"] = [self.node(it, None if iname == NONE else iname, f"{nid}/items")]
         ap = j.get("additionalProperties")
         if isinstance(ap, dict):
-            n["addl"] = [self.node(ap, None)]
+            n["addl"] = [self.node(ap, None, f"{nid}/addl")]
         return n
 
 
 def build_raw(schemas: dict[str, Any]) -> tuple[dict[str, Any], list[str]]:
     b = Builder()
-    raw = {name: b.node(j, name) for name, j in schemas.items()}
+    raw = {name: b.node(j, name, name) for name, j in schemas.items()}
     return raw, sorted(b.names)
